@@ -43,6 +43,17 @@ pub(crate) fn encrypt(
     let (key, nonce) = key_and_nonce(garbling_key);
     let cipher = ChaCha20Poly1305::new(&key);
     let bytes = serialize(&triple).map_err(|e| Error::Serde(format!("{e:?}")))?;
+    // tap: the serialized row before it is encrypted (identity unless armed)
+    #[cfg(feature = "__verif")]
+    let bytes = {
+        let mut bytes = bytes;
+        crate::verif::tap_bytes(
+            "garble.row_plain",
+            4 * garbling_key.w + garbling_key.row as usize,
+            &mut bytes,
+        );
+        bytes
+    };
     let ciphertext = cipher
         .encrypt(&nonce, bytes.as_ref())
         .map_err(|_| Error::EncryptionFailed)?;
